@@ -65,6 +65,7 @@ class Ref:
         self.sized = [False] * len(lay)   # file has been ftruncated to its size
         self.npieces = (o + cs - 1) // cs
         self.bits = set()                 # completed bitfield
+        self.counted_bits = set()         # bits the per-file counters have seen (mark / update_completed)
         self.fexp = [0] * len(lay)        # expected File::completed_chunks
         self._ne = [i for i, (s, _) in enumerate(lay) if s > 0]
         self._neoffs = [self.offs[i] for i in self._ne]
@@ -110,14 +111,23 @@ class Ref:
         incremented, and so are the empty files the walk passes on the way."""
         if self.clean(j):
             return self.overlaps(j, p)
-        return self.r2(j) > p and (j == 0 or self.r2(j - 1) <= p + 1)
+        n = len(self.lay)
+        a = next((i for i in range(n) if self.r2(i) > p), n)
+        b = next((i for i in range(a, n) if self.r2(i) > p + 1), n)
+        return a <= j <= b
+
+    def bits_counted(self, j):
+        """set pieces overlapping file j, as of the last mark/recount (S alone does not count yet)"""
+        return [p for p in self.counted_bits if self.overlaps(j, p)]
 
     def mark(self, p):
+        self.counted_bits.add(p)
         self.bits.add(p)
         for j in range(len(self.lay)):
             self.fexp[j] += self.counted(j, p)
 
     def recount(self):
+        self.counted_bits = set(self.bits)
         if len(self.bits) == self.npieces:
             self.fexp = [(self.r2(j) - self.offs[j] // self.cs) for j in range(len(self.lay))]
         else:
@@ -126,8 +136,8 @@ class Ref:
 
 def oracle(case, line):
     """Property C02 evaluated on ONE implementation output line. Returns list of (klass, text)."""
-    if line.startswith("CRASH") or line.startswith("ERR:") or line in ("MISSING", "BADCASE"):
-        return [("crash", "harness/impl crashed or raised outside an operation: " + line[:200])]
+    if line.startswith("CRASH") or line.startswith("ERR:") or line.startswith("REJECT") or line in ("MISSING", "BADCASE"):
+        return [("crash", "harness/impl crashed, rejected the torrent or raised outside an operation: " + line[:200])]
     cs, lay, ops = parse_case(case)
     outs = line.split(" | ")
     if len(outs) != len(ops):
@@ -140,7 +150,7 @@ def oracle(case, line):
 
     for j, (op, o) in enumerate(zip(ops, outs)):
         k = op[0]
-        if "ERR:internal!" in o or o.startswith("ERR:local") or o.startswith("ERR:other") or o == "BADOP":
+        if "ERR:internal!" in o or o.startswith("ERR:local") or o.startswith("ERR:other") or o == "BADOP" or "CLEANUP-ERR" in o:
             fail("unexpected-exception", "unexpected exception: " + o[:120], j)
             continue
         if k in ("C", "I"):
@@ -161,14 +171,24 @@ def oracle(case, line):
             if o == "ERR:internal":
                 fail("chunk-refused", "valid chunk range refused", j)
                 continue
-            targets = [R.locate(off + t) for t in range(ln)]
-            touched = []
-            for fi, _ in targets:
-                if fi not in touched:
-                    touched.append(fi)
+            # the specification's segmentation of [off, off+ln): maximal runs inside one file
+            runs, t = [], 0
+            while t < ln:
+                fi, fo = R.locate(off + t)
+                ext = min(ln - t, lay[fi][0] - fo)
+                runs.append((t, ext, fi, fo))
+                t += ext
+            touched = [r[2] for r in runs]
+
+            def target(t):
+                for (p0, ext, fi, fo) in runs:
+                    if p0 <= t < p0 + ext:
+                        return fi, fo + (t - p0)
+                raise AssertionError(t)
+
             if o == "NULL":
                 # legitimate only for an empty range or a read-only request that meets a file not
-                # yet resized; files before the failing one may have been resized by a writable request
+                # yet resized
                 if ln == 0:
                     continue
                 if w or all(R.sized[fi] or lay[fi][1] for fi in touched):
@@ -176,7 +196,7 @@ def oracle(case, line):
                 continue
             f = dict(x.split("=", 1) for x in o.split(" "))
             parts = [] if f["parts"] == "-" else [p.split(":") for p in f["parts"].split(",")]
-            exp, cpos = [], 0
+            got, cpos = [], 0
             for p in parts:
                 ppos, psz, pfi, pfo, pk = int(p[0]), int(p[1]), int(p[2]), int(p[3]), p[4]
                 if ppos != cpos:
@@ -185,11 +205,16 @@ def oracle(case, line):
                     fail("parts-empty", "zero-length part or zero-length file in a chunk", j)
                 if pfi < len(lay) and (pk == "p") != lay[pfi][1]:
                     fail("parts-padding-flag", "padding flag of a part differs from the file's", j)
-                exp += [(pfi, pfo + t) for t in range(psz)]
+                got.append((ppos, psz, pfi, pfo))
                 cpos += psz
-            if exp != targets:
-                fail("parts-cover", "chunk parts do not map byte k to locate(off+k): got %s want %s" % (exp[:6], targets[:6]), j)
-                # keep the reference image consistent with the property, not with the buggy mapping
+            if ln <= 8192:
+                expb = [(fi, fo + t) for (_, ext, fi, fo) in runs for t in range(ext)]
+                gotb = [(pfi, pfo + t) for (_, psz, pfi, pfo) in got for t in range(psz)]
+                okc = expb == gotb
+            else:
+                okc = got == runs
+            if not okc:
+                fail("parts-cover", "chunk parts do not map byte k to locate(off+k): got %s want %s" % (got[:4], runs[:4]), j)
             if not w and any(not (R.sized[fi] or lay[fi][1]) for fi in touched):
                 fail("chunk-on-short-file", "read-only chunk mapped beyond a file's current size", j)
             if w:
@@ -205,7 +230,7 @@ def oracle(case, line):
                     if f["wr"] != "ok":
                         fail("write-refused", "valid from_buffer refused: " + f["wr"], j)
                     for t in range(n):
-                        fi, fo = targets[pos + t]
+                        fi, fo = target(pos + t)
                         if lay[fi][1]:
                             cm[pos + t] = data[t]
                         else:
@@ -214,7 +239,7 @@ def oracle(case, line):
                 fail("shape", "wr on read-only chunk", j)
 
             def view(a, b):
-                return [cm.get(t, 0) if lay[targets[t][0]][1] else R.image[off + t] for t in range(a, b)]
+                return [cm.get(t, 0) if lay[target(t)[0]][1] else R.get(off + t) for t in range(a, b)]
 
             if rpos + rn > ln:
                 if f["rd"] != "ERR:internal":
@@ -230,13 +255,36 @@ def oracle(case, line):
                     fail("compare-wrong", "compare_buffer returned %s, expected %s" % (f["cmp"], want), j)
         elif k == "M":
             idx = int(op[1])
-            legal = idx < R.npieces and idx not in R.marked
+            legal = idx < R.npieces and idx not in R.bits
             if legal and o != "ok":
                 fail("mark-refused", "mark_completed of an unset valid piece raised", j)
             if not legal and o == "ok":
                 fail("mark-accepted", "mark_completed accepted an invalid or already set piece", j)
             if o == "ok":
-                R.marked.add(idx)
+                R.mark(idx)
+        elif k == "S":
+            idx = int(op[1])
+            if (o == "set=1") != (idx < R.npieces):
+                fail("shape", "bitfield set of an out-of-range index", j)
+            if idx < R.npieces:
+                R.bits.add(idx)          # bitfield only: the per-file counters wait for update_completed
+        elif k in ("R", "U"):
+            if o != "upd=ok":
+                fail("update-completed-raised", "update_completed / re-open raised: " + o[:60], j)
+            if k == "R":
+                R.bits = set()
+            R.recount()
+        elif k == "P":
+            i, off, ln = int(op[1]), int(op[2]), int(op[3])
+            if i >= len(lay) or lay[i][1]:
+                if o != "pread=none":
+                    fail("shape", "pread of a padding entry / no such file: " + o[:40], j)
+                continue
+            size = lay[i][0] if R.sized[i] else 0
+            n = max(0, min(ln, size - off))
+            want = "pread=%d:%s" % (size, hx([R.get(R.offs[i] + off + t) for t in range(n)]))
+            if o != want:
+                fail("file-bytes", "bytes of file %d at offset %d on disk are %s, the mapping says %s" % (i, off, o[6:60], want[6:60]), j)
         elif k == "V":
             idx, off, ln = int(op[1]), int(op[2]), int(op[3])
             want = idx < R.npieces and ln != 0 and off + ln <= R.piece_size(idx)
@@ -250,18 +298,33 @@ def oracle(case, line):
             elif sizes != [R.piece_size(i) for i in range(R.npieces)] or sum(sizes) != R.total:
                 fail("piece-sizes", "piece sizes %s do not tile the torrent (total %d)" % (sizes[:8], R.total), j)
             files = [tuple(int(v) for v in x.split(":")) for x in f["files"].split(",")]
-            for i, (fo, fs, r1, r2, _) in enumerate(files):
+            if len(files) != len(lay):
+                fail("file-count", "%d files, the torrent lists %d" % (len(files), len(lay)), j)
+                continue
+            for i, (fo, fs, r1, r2, comp) in enumerate(files):
                 if fo != R.offs[i] or fs != lay[i][0]:
-                    fail("file-offset", "file %d offset/size %d/%d, expected %d/%d" % (i, fo, fs, R.offs[i], lay[i][0]), j)
+                    fail("file-offset", "file %d offset/size %d/%d, torrent order says %d/%d" % (i, fo, fs, R.offs[i], lay[i][0]), j)
+                    continue
                 if fs > 0:
                     touch = sorted({(fo + t) // cs for t in range(fs)}) if fs <= 4096 else list(range(fo // cs, (fo + fs - 1) // cs + 1))
                     if list(range(r1, r2)) != touch:
                         fail("file-range", "file %d range [%d,%d) but it touches pieces %s" % (i, r1, r2, touch[:8]), j)
                 elif r1 != r2:
                     fail("file-range", "empty file %d has a non-empty piece range" % i, j)
-            cbytes = sum(R.piece_size(i) for i in R.marked)
-            if int(f["cc"]) != len(R.marked):
-                fail("completed-count", "completed_chunks %s, expected %d" % (f["cc"], len(R.marked)), j)
+                # per-file completed chunks: exact for clean files (= set pieces overlapping the file,
+                # never above the file's piece count); quirk-adjusted (see Ref.counted) for the others
+                if R.clean(i):
+                    want = sum(1 for p in R.bits_counted(i))
+                else:
+                    want = R.fexp[i]
+                if comp != want:
+                    fail("file-completed", "file %d completed_chunks %d, but %d of its pieces are set%s" % (
+                        i, comp, want, "" if R.clean(i) else " (boundary-quirk adjusted)"), j)
+                elif R.clean(i) and comp > r2 - r1:
+                    fail("file-completed", "file %d completed_chunks %d above its piece count %d" % (i, comp, r2 - r1), j)
+            cbytes = sum(R.piece_size(i) for i in R.bits)
+            if int(f["cc"]) != len(R.bits):
+                fail("completed-count", "completed_chunks %s, expected %d" % (f["cc"], len(R.bits)), j)
             if f["cb"] != str(cbytes):
                 fail("completed-bytes", "completed_bytes %s, expected %d" % (f["cb"], cbytes), j)
             if f["left"] != str(R.total - cbytes):
@@ -391,6 +454,11 @@ def gen_ops(r, cs, lay, malformed=False):
                 ops.append("Q")
         if r.random() < 0.3:
             ops.append(v_op())
+        if r.random() < 0.08:
+            ops += ["R", "Q"]
+            marks = []
+        if r.random() < 0.08 and np_:
+            ops += ["S %d" % r.randrange(np_), "U", "Q"]
     if malformed:
         for _ in range(r.randrange(1, 6)):
             k = r.randrange(8)
@@ -451,6 +519,157 @@ def canonical_ops(cs, lay, order_seed):
     return ops
 
 
+
+def reopen_ops(r, cs, lay):
+    """progress -> close/re-open without resume data -> update_completed -> re-mark; resume-like
+    bit loading (S.. U) with none / some / all bits set"""
+    R = Ref(cs, lay)
+    np_ = R.npieces
+    ops = []
+    order = list(range(np_))
+    r.shuffle(order)
+    first = order[:r.randrange(1, np_ + 1)]
+    for i in first:
+        ops.append("M %d" % i)
+    ops += ["Q", "R", "Q"]
+    r.shuffle(order)
+    for i in order[:r.randrange(0, np_ + 1)]:
+        ops.append("M %d" % i)
+    ops.append("Q")
+    if r.random() < 0.5:
+        ops += ["R", "U", "Q"]
+    k = r.choice((0, 1, np_ // 2, np_ - 1, np_))
+    ops.append("R")
+    for i in sorted(r.sample(range(np_), k)):
+        ops.append("S %d" % i)
+    ops += ["U", "Q"]
+    rest = [i for i in range(np_)]
+    r.shuffle(rest)
+    for i in rest[:r.randrange(0, np_ + 1)]:
+        ops.append("M %d" % i)            # some of these are already set: must be refused
+    ops += ["Q", "U", "Q"]
+    return ops
+
+
+DIRS = ["video", "audio", "z", "a", "B", "video/extras", "docs"]
+
+
+def loader_layout(r, cs):
+    """entries (size, pad, path) in TORRENT order, deliberately not in lexicographic path order"""
+    nf = r.choice((2, 3, 3, 4, 5, 6, 8))
+    pool = [0, 0, 1, 100, cs - 1, cs, cs + 1, 2 * cs + 3, 3 * cs, 17]
+    ents, used = [], set()
+    for i in range(nf):
+        size = r.choice(pool)
+        pad = r.random() < 0.15 and size > 0
+        while True:
+            d = r.choice(DIRS + ["", "", ""])
+            name = r.choice(("f%d.bin" % r.randrange(1, 13), "f%d" % r.randrange(1, 13), "%s.dat" % r.choice("abcxyz")))
+            if pad:
+                d, name = ".pad", "%d" % r.randrange(100)
+            path = (d + "/" if d else "") + name
+            if path not in used:
+                used.add(path)
+                break
+        ents.append((size, pad, path))
+    if sum(e[0] for e in ents) == 0:
+        ents[0] = (cs + 1, False, ents[0][2])
+    keys = [tuple(c.encode() for c in e[2].split("/")) for e in ents]
+    if keys == sorted(keys) and len(ents) > 1:
+        ents.reverse()
+    return ents
+
+
+def loader_case(r):
+    cs = r.choice((1025, 1025, 1100, 2048))
+    ents = loader_layout(r, cs)
+    if r.random() < 0.1:
+        ents = [(r.choice((1, cs - 1, cs, 3 * cs + 7)), False, None)]      # single-file torrent
+    lay = [(s, p) for s, p, _ in ents]
+    R = Ref(cs, lay)
+    pat = Pat(r.randrange(255))
+    ops = ["Q"]
+    order = list(range(R.npieces))
+    r.shuffle(order)
+    for idx in order[:6]:
+        ps = R.piece_size(idx)
+        if r.random() < 0.4:
+            pos, n = 0, ps
+        else:
+            pos = r.randrange(ps)
+            n = min(ps - pos, r.randrange(1, 24))
+        ops.append("I %d 1 %d %s %d %d" % (idx, pos, hx(pat.take(n)), pos, n))
+        if r.random() < 0.5:
+            ops.append("M %d" % idx)
+    for i, (s_, p_, _) in enumerate(ents[:4]):
+        if s_ > 0:
+            ops.append("P %d %d %d" % (i, r.randrange(s_), 16))
+    ops += ["Q", "D"]
+    if r.random() < 0.3:
+        ops += ["R", "Q", "M %d" % order[0], "Q", "D"]
+    lay_s = ",".join("%d%s%s" % (s_, "p" if p_ else "", ("@" + pth) if pth else "") for s_, p_, pth in ents)
+    return "T %d %s ; " % (cs, lay_s) + " ; ".join(ops)
+
+
+TWO32 = 1 << 32
+
+
+def big_cases(r, tier):
+    """SPARSE multi-GiB layouts: file offsets at and above 2^32 (never dumped, only pread)"""
+    out = []
+    shapes = [
+        (65536, [(TWO32 + 3 * 65536 + 5, False)]),
+        (65536, [(100, False), (TWO32 + 200000, False), (0, False), (9, True), (3000, False)]),
+        (40000, [(7, False), (TWO32 + 123457, False), (70000, False)]),
+        (65536, [(TWO32 - 10, False), (TWO32 + 77, False)]),
+    ]
+    if tier != "quick":
+        shapes += [(32768, [(3 * TWO32 + 12345, False), (1, False)]),
+                   (65536, [(TWO32 + 65536, False)]),
+                   (50000, [(5, True), (2 * TWO32 + 5, False), (5, False)]),
+                   (65536, [(TWO32 // 2, False), (TWO32 // 2 + 4096, False), (TWO32, False)])]
+    for cs, lay in shapes:
+        R = Ref(cs, lay)
+        pat = Pat(r.randrange(255))
+        ops = []
+        big = [i for i, (s_, _) in enumerate(lay) if s_ >= TWO32 // 2]
+        interesting = set()
+        for i in big:
+            fo = R.offs[i]
+            for fo_in in (TWO32 - 1, TWO32, TWO32 + 4096 + 17, lay[i][0] - 1, 2 * TWO32, 3 * TWO32 + 100):
+                if 0 <= fo_in < lay[i][0]:
+                    interesting.add((fo + fo_in) // cs)
+            interesting.add(fo // cs)
+        interesting.add(R.npieces - 1)
+        interesting.add(0)
+        todo = sorted(interesting)
+        r.shuffle(todo)
+        for idx in todo:
+            ps = R.piece_size(idx)
+            pos = r.randrange(ps)
+            n = min(ps - pos, r.randrange(1, 20))
+            # make the write straddle 2^32 inside the file when the piece does
+            for i in big:
+                g = R.offs[i] + TWO32
+                if idx * cs < g < idx * cs + ps and g - idx * cs >= 4 and r.random() < 0.7:
+                    pos = g - idx * cs - 3
+                    n = min(ps - pos, 9)
+            ops.append("I %d 1 %d %s %d %d" % (idx, pos, hx(pat.take(n)), pos, n))
+            fi, fo = R.locate(idx * cs + pos)
+            ops.append("P %d %d %d" % (fi, max(0, fo - 4), n + 8))
+            if fo >= TWO32:
+                ops.append("P %d %d %d" % (fi, fo - TWO32, n + 4))     # where a 32-bit offset would land
+            if r.random() < 0.5:
+                ops.append("M %d" % idx)
+        for idx in todo[:3]:
+            ops.append("I %d 0 0 - 0 8" % idx)
+        # re-check the first writes at the very end (nothing may have clobbered them)
+        ops += [o for o in ops if o.startswith("P ")][:6]
+        ops.append("V %d 0 %d" % (R.npieces - 1, R.piece_size(R.npieces - 1)))
+        out.append(case_line(cs, lay, ops))
+    return out
+
+
 HAND = [
     "3 2,0,5,1p,0,4 ; Q ; D ; I 0 0 0 - 0 3 ; I 0 1 0 010203 0 3 ; D ; I 1 1 1 0a0b 0 3 ; I 2 1 0 1112 0 3 ; I 3 1 0 212223 0 3 ; D ; M 0 ; M 3 ; Q ; M 3 ; M 4 ; V 3 0 3 ; V 3 0 4 ; V 0 4294967295 2 ; Q",
     "4 10 ; C 3 5 1 0 0102030405 0 5 ; D ; C 0 10 0 2 - 0 10 ; C 8 3 1 0 01 0 1 ; C 10 0 1 0 - 0 0 ; C 2 4 1 3 0102 0 4 ; C 2 4 1 4 - 5 0 ; C 2 4 1 0 - 4 1",
@@ -474,6 +693,7 @@ def gen(seed, tier):
     r = random.Random(seed)
     cases = []
     stats = {"corpus": 0, "hand": 0, "random_valid": 0, "random_malformed": 0, "page_sized": 0, "exhaustive": 0,
+             "reopen": 0, "loader": 0, "sparse_4gib": 0,
              "cs_hist": {}, "nfiles_hist": {}, "op_hist": {}, "with_padding": 0, "with_empty_files": 0}
     cdir = os.path.join(os.path.dirname(os.path.dirname(os.path.abspath(__file__))), "corpus", "C02")
     if os.path.isdir(cdir):
@@ -494,6 +714,20 @@ def gen(seed, tier):
         mal = k >= n_valid
         cases.append(case_line(cs, lay, gen_ops(r, cs, lay, malformed=mal)))
         stats["random_malformed" if mal else "random_valid"] += 1
+    # close / re-open / update_completed / resume-like bit loading
+    for _ in range(150 if tier == "quick" else 1500):
+        cs = r.choice((1, 2, 3, 4, 5))
+        lay = rand_layout(r, cs)
+        cases.append(case_line(cs, lay, reopen_ops(r, cs, lay)))
+        stats["reopen"] += 1
+    # loader-driven: metainfo -> download_add -> DownloadConstructor -> FileList, files not path-sorted
+    for _ in range(40 if tier == "quick" else 300):
+        cases.append(loader_case(r))
+        stats["loader"] += 1
+    # sparse files above 4 GiB
+    for c in big_cases(r, tier):
+        cases.append(c)
+        stats["sparse_4gib"] += 1
     # a few layouts whose file boundaries straddle the mmap page size (offset % page alignment path)
     for _ in range(12 if tier == "quick" else 60):
         cs = r.choice((1025, 4096, 4097, 5000, 8192))
